@@ -231,11 +231,59 @@ func TestC13IndexSizes(t *testing.T) {
 			n, _ := l.NextOffset()
 			g, gerr := l.Get(N - 1)
 			stt, _ := l.Stat()
-			_ = l.Close()
 			st.Eval(1)
-			if n != N || gerr != nil || g.Offset != N-1 || stt.Messages != N {
-				fail("a segment of %d messages (keys=%v times=%v), reopened (round %d, index file removed=%v): NextOffset %d, Get(last) -> %d,%v, Stat.Messages %d", N, cfg[0], cfg[1], round, rm, n, g.Offset, gerr, stt.Messages)
+			wantNext := int64(N)
+			if cfg[0] {
+				wantNext += int64(7 * round)
 			}
+			if n != wantNext || gerr != nil || g.Offset != N-1 || stt.Messages != int(n) {
+				_ = l.Close()
+				fail("a segment of %d messages (keys=%v times=%v), reopened (round %d, index file removed=%v): NextOffset %d, Get(%d) -> %d,%v, Stat.Messages %d", N, cfg[0], cfg[1], round, rm, n, N-1, g.Offset, gerr, stt.Messages)
+			}
+			if cfg[0] {
+				// the key index of a big segment loaded in one go, then every key published once more: each lookup must
+				// find the new message, and the iteration over a key must return all of its messages
+				base := n
+				for k := 0; k < 7; k++ {
+					if _, err := l.Publish([]klevdb.Message{{Time: time.UnixMicro(int64(100000 + k)), Key: []byte(fmt.Sprintf("k%d", k)), Value: []byte("again")}}); err != nil {
+						_ = l.Close()
+						fail("publish: %v", err)
+					}
+				}
+				for k := 0; k < 7; k++ {
+					key := []byte(fmt.Sprintf("k%d", k))
+					g, err := l.GetByKey(key)
+					if err != nil || g.Offset != base+int64(k) {
+						_ = l.Close()
+						fail("after loading the key index of %d messages and publishing every key once more, GetByKey(k%d) -> offset %d,%v want %d", n, k, g.Offset, err, base+int64(k))
+					}
+					cnt, off := 0, klevdb.OffsetOldest
+					for {
+						no, ms, err := l.ConsumeByKey(key, off, 1000)
+						if err != nil {
+							_ = l.Close()
+							fail("ConsumeByKey(k%d,%d): %v", k, off, err)
+						}
+						if len(ms) == 0 {
+							break
+						}
+						cnt += len(ms)
+						off = no
+					}
+					want := 0
+					for i := 0; i < N; i++ {
+						if i%7 == k {
+							want++
+						}
+					}
+					want += round + 1
+					if cnt != want {
+						_ = l.Close()
+						fail("after loading the key index of %d messages and publishing every key once more, ConsumeByKey(k%d) iterates over %d messages, the log holds %d with that key", n, k, cnt, want)
+					}
+				}
+			}
+			_ = l.Close()
 		}
 	}
 }
